@@ -40,6 +40,31 @@ class PolarizationState:
             self.Ex /= mag
             self.Ey /= mag
 
+    def to_dict(self):
+        """
+        Returns a dictionary representation of the polarization state.
+
+        Returns:
+            dict: The dictionary representation of the polarization state.
+        """
+        return {'is_polarized': self.is_polarized,
+                'Ex': self.Ex, 'Ey': self.Ey,
+                'phase_x': self.phase_x, 'phase_y': self.phase_y}
+
+    @classmethod
+    def from_dict(cls, data):
+        """
+        Creates a polarization state from a dictionary.
+
+        Args:
+            data (dict): The dictionary representation of the state.
+
+        Returns:
+            PolarizationState: The polarization state.
+        """
+        return cls(data['is_polarized'], data['Ex'], data['Ey'],
+                   data['phase_x'], data['phase_y'])
+
     def __str__(self):
         """
         Returns a string representation of the polarization state.
